@@ -29,6 +29,8 @@ pub fn sort_key0_desc(v: &mut Vec<(Float, usize, Vec<Float>)>)
     ensures exists|p: Seq<int>, q: Seq<int>| is_perm_of(final(v)@, old(v)@, p, q),
         forall|a: int, b: int| 0 <= a < b < final(v)@.len() ==> (#[trigger] final(v)@[b]).0.partial_cmp_spec(&(#[trigger] final(v)@[a]).0) != Some(Ordering::Greater),
 { v.sort_by(|a, b| b.0.partial_cmp(&a.0).unwrap()) }
+/// R15: an arbitrary value standing for an iterator-adapter statement that is not modelled
+#[verifier::external_body] pub fn vx_unmodelled<T>() -> T { unimplemented!() }
 pub mod stdx { use vstd::prelude::*;
 /// a Vec never holds more than usize::MAX elements (std guarantees <= isize::MAX bytes)
 pub broadcast axiom fn vec_len_bound<T>(v: Vec<T>) ensures #[trigger] v@.len() <= usize::MAX;
